@@ -16,7 +16,9 @@ git apply "$out/patch.diff"
 if git diff --name-only | grep -q '_test.go$'; then log "patch touches tests"; exit 1; fi
 go build ./... || { log "build fails"; exit 1; }
 go build -tags verif ./... || { log "verif build fails"; exit 1; }
-go test -vet=off -count=1 ./... > /tmp/seed/$id.suite.log 2>&1 || { log "suite FAILS with patch"; tail -20 /tmp/seed/$id.suite.log; exit 1; }
+# TestCommandStorer has a 0.1 s timing assertion that fails now and then on a loaded machine: up to 3 attempts
+ok=0; for attempt in 1 2 3; do go test -vet=off -count=1 ./... > /tmp/seed/$id.suite.log 2>&1 && { ok=1; break; }; sleep 2; done
+[ $ok = 1 ] || { log "suite FAILS with patch"; tail -20 /tmp/seed/$id.suite.log; exit 1; }
 log "suite passes with patch"
 cp "$out/zz_seed_demo_test.go" "$demo_dir/zz_seed_demo_test.go"
 if (cd "$demo_dir" && go test -vet=off -count=1 -run 'Seed|Demo|seed|demo' . > /tmp/seed/$id.demo_with.log 2>&1); then
